@@ -219,8 +219,10 @@ def translate():
     elif b2.start() < a.start() and not re.search(r"drain_outputs\s*\(", body[a.end():]):
         fails.append("udp.rs timeout(): the outputs are drained before handle_timeout and not after it")
     body = _with_helpers(sh, _fn_body(sh, "arm_timer"), depth=1)
-    if not (body and re.search(r"cancel_timeout\s*\(", body) and re.search(r"set_timeout\s*\(", body)):
-        un("udp.rs arm_timer: 'cancel the previous one-shot timer, set a new one' was not recognised")
+    if not (body and re.search(r"set_timeout\s*\(", body)):
+        un("udp.rs arm_timer: setting the one-shot timer (set_timeout) was not recognised (observed by the idle_reaper scenario)")
+    elif not re.search(r"cancel_timeout\s*\(", body):
+        fails.append("udp.rs arm_timer: the previous one-shot timer is no longer cancelled before a new one is set (nothing observes the leaked timer entries)")
     # the shadow flow table is `name: HashMap<SocketAddr, FlowId>`; on_close_flow must try both affinity keys (fix d875ae5).
     # NOT observable on a release build (only the debug assertion / a leaked entry): stays a hard fact, read by meaning.
     shadow = re.search(r"(\w+)\s*:\s*HashMap<\s*SocketAddr\s*,\s*FlowId\s*>", sh)
@@ -234,13 +236,16 @@ def translate():
         if not (removes >= 2 or re.search(r"%s\s*\.\s*retain\s*\(" % name, body)
                 or (removes >= 1 and re.search(r"\bfor\b[^{]*\[[^\]]*\]|\bfor\b[^{]*\bin\b", body))):
             fails.append("udp.rs on_close_flow: the shadow flow-table entry is no longer dropped under both affinity modes (fix d875ae5)")
-    # recv_buf is one byte larger than max_rx, in the constructor and in the resize
+    # recv_buf is one byte larger than max_rx at BOTH sites that size it (constructor and resize_recv_buf): a site that
+    # is found but does not add the byte is a hard failure; `unreadable:` only when a site cannot be located at all
     plus1 = r"saturating_add\(\s*1\s*\)|\w+\s*\+\s*1\b|\b1\s*\+\s*\w+|checked_add\(\s*1\s*\)"
     ctor = "\n".join(re.findall(r"recv_buf\s*:[^\n]*", sh))
-    nb = sum(1 for part in (_with_helpers(sh, ctor, depth=1), _with_helpers(sh, _fn_body(sh, "resize_recv_buf") or "", depth=1))
-             if re.search(plus1, part))
-    if nb < 2:
-        un("udp.rs: recv_buf = max_rx + 1 bytes (constructor and resize_recv_buf) was not recognised (an oversized datagram must stay recognisable)")
+    for (site, text) in (("UdpListenerSession::new (recv_buf: ...)", ctor), ("resize_recv_buf", _fn_body(sh, "resize_recv_buf"))):
+        if not text or not text.strip():
+            un("udp.rs: %s was not found (model/oracle: the receive buffer is max_rx + 1 bytes so an oversized datagram stays recognisable)" % site)
+        elif not re.search(plus1, _with_helpers(sh, text, depth=1)):
+            fails.append("udp.rs: %s sizes the receive buffer without the extra byte (max_rx + 1): an oversized datagram would be "
+                         "forwarded cut to max_rx bytes instead of dropped" % site)
     # ---- slab free-list discipline (third-party crate, pinned by Cargo.lock)
     import glob
     cands = sorted(glob.glob(os.path.expanduser("~/.cargo/registry/src/*/slab-0.4.*/src/lib.rs")))
@@ -267,8 +272,9 @@ TRANSLATE_FALLBACK = ("every fact read from manager.rs / flow.rs / mod.rs (order
                       "(payload sizes max_rx-1/max_rx/max_rx+1, caps 0..6 with shrinks below the live count, clock steps "
                       "at deadline-1/deadline/deadline+1, op fire, empty payloads, both affinity modes with port 0); the "
                       "shell facts (timeout -> handle_timeout -> drain_outputs, arm_timer, recv_buf = max_rx+1) determine "
-                      "what the black-box corpus observes on every run (idle_reaper, oversize_boundary); the one fact "
-                      "nothing observes on a release build (both-keys removal in on_close_flow) is never soft")
+                      "what the black-box corpus observes on every run (idle_reaper, oversize_boundary, resize_then_oversize); "
+                      "facts nothing observes on a release build (both-keys removal in on_close_flow, cancelling the "
+                      "previous timer, a located receive-buffer site without the extra byte) are never soft")
 
 
 # ---------------------------------------------------------------------------
@@ -466,6 +472,11 @@ def e2e_case(rng, cid):
     for _ in range(rng.randint(5, 14)):
         if rng.random() < 0.03:
             ops.append(["bounce"])            # DeactivateListener + ActivateListener under live flows
+        if rng.random() < 0.04:
+            ops.append(["updlistener", rng.choice([8, 64, 100, 1500])])   # resized receive buffer: oversized stays dropped
+        if rng.random() < 0.04 and not (responses or requests or pp):
+            ops.append(["recluster_noudp"])   # AddCluster without a udp block: back to SOURCE_IP, no caps
+            wp = 0
         if rng.random() < 0.05:
             ops.append(["addbackend"])        # the backend set changes under live flows: they must stay where they are
             nb += 1
